@@ -13,19 +13,19 @@ NodeProto attribute order carries no meaning; input/output/parameter order is ke
 namespace Conform
 
 inductive FieldKind where | single | optional | variadic
-  deriving Repr, DecidableEq, BEq
+  deriving Repr, DecidableEq, BEq, ReflBEq, LawfulBEq
 
 /-- spox `Attr*` classes. -/
 inductive AttrKind where
   | float | int | string | tensor | graph | type | floats | ints | strings | tensors | dtype
   | unknown
-  deriving Repr, DecidableEq, BEq
+  deriving Repr, DecidableEq, BEq, ReflBEq, LawfulBEq
 
 /-- `onnx.defs.OpSchema.AttrType`. -/
 inductive SType where
   | FLOAT | INT | STRING | TENSOR | GRAPH | SPARSE_TENSOR | TYPE_PROTO
   | FLOATS | INTS | STRINGS | TENSORS | GRAPHS | SPARSE_TENSORS | TYPE_PROTOS | UNDEFINED
-  deriving Repr, DecidableEq, BEq
+  deriving Repr, DecidableEq, BEq, ReflBEq, LawfulBEq
 
 /-- Attribute values as far as defaults need them. Floats are IEEE-754 binary32 bit patterns. -/
 inductive Val where
@@ -38,7 +38,7 @@ inductive Val where
   | strs (l : List String)
   | dtype (name : String)     -- `np.float32` … (constructor side only)
   | other (src : String)      -- anything else (never equal to a schema default)
-  deriving Repr, DecidableEq, BEq
+  deriving Repr, DecidableEq, BEq, ReflBEq, LawfulBEq
 
 /-- `dtype_to_tensor_type` on the numpy scalar types that occur as constructor defaults
     (`TensorProto.DataType`). -/
@@ -61,7 +61,7 @@ structure AttrField where
   name : String
   kind : AttrKind
   optional : Bool
-  deriving Repr, DecidableEq, BEq
+  deriving Repr, DecidableEq, BEq, ReflBEq, LawfulBEq
 
 /-- An operator class (`class _X(StandardNode)`). -/
 structure ClassSig where
@@ -79,7 +79,7 @@ inductive PKind where
   | var | optVar | seqVar           -- `Var`, `Optional[Var]`, `Sequence[Var]`
   | callback                        -- `Callable[..., Iterable[Var]]`
   | attr                            -- any attribute-valued annotation
-  deriving Repr, DecidableEq, BEq
+  deriving Repr, DecidableEq, BEq, ReflBEq, LawfulBEq
 
 structure Param where
   name : String
@@ -106,14 +106,14 @@ inductive OutVar where
   | param (p : String)                         -- `Split`: an output-count parameter
   | lenResults (attr : String) (minus : Nat)   -- control flow: `len(_<attr>_subgraph.requested_results) - k`
   | other (src : String)
-  deriving Repr, DecidableEq, BEq
+  deriving Repr, DecidableEq, BEq, ReflBEq, LawfulBEq
 
 /-- What the constructor returns. -/
 inductive Ret where
   | field (f : String)      -- `.outputs.<f>`
   | unpack                  -- `.outputs._unpack_to_any()`
   | other (src : String)
-  deriving Repr, DecidableEq, BEq
+  deriving Repr, DecidableEq, BEq, ReflBEq, LawfulBEq
 
 /-- A constructor function together with the class it instantiates. -/
 structure Ctor where
